@@ -16,11 +16,20 @@ struct Case {
     donor: Vec<([u8; 4], Vec<u8>)>,
     /// copy before (true) or after (false) the add_raw calls
     copy_first: bool,
+    /// 0: the donor is a stand-alone file built by FontBuilder; k > 0: the donor is member k-1 of a font collection
+    /// with `ttc_members` members assembled by the harness (FontRef::from_index), so its tables sit at offsets that are
+    /// absolute in the collection file
+    #[serde(default)]
+    ttc_member: u8,
+    #[serde(default)]
+    ttc_members: u8,
 }
 
 fn tag_strategy() -> impl Strategy<Value = [u8; 4]> {
     prop_oneof![
         3 => Just(*b"head"),
+        // near misses of the one tag the builder treats specially (bhed is Apple's bitmap-only font header)
+        1 => prop_oneof![Just(*b"bhed"), Just(*b"Head"), Just(*b"HEAD"), Just(*b"hea "), Just(*b"heae"), Just(*b"iead"), Just(*b"hdad")],
         1 => Just(*b"CFF "),
         1 => Just(*b"DSIG"),
         1 => Just(*b"glyf"),
@@ -53,8 +62,55 @@ fn strategy() -> impl Strategy<Value = Case> {
         any::<u64>(),
         proptest::collection::vec((tag_strategy(), data_strategy()), 0..8),
         any::<bool>(),
+        prop_oneof![2 => Just((0u8, 0u8)), 1 => (1u8..=3).prop_flat_map(|n| (1u8..=n, Just(n)))],
     )
-        .prop_map(|(adds, perm, donor, copy_first)| Case { adds, perm, donor, copy_first })
+        .prop_map(|(adds, perm, donor, copy_first, (ttc_member, ttc_members))| Case { adds, perm, donor, copy_first, ttc_member, ttc_members })
+}
+
+fn checksum(d: &[u8]) -> u32 {
+    let mut s = 0u32;
+    for c in d.chunks(4) {
+        let mut w = [0u8; 4];
+        w[..c.len()].copy_from_slice(c);
+        s = s.wrapping_add(u32::from_be_bytes(w));
+    }
+    s
+}
+
+/// a font collection whose member `which` holds `tables`; the other members hold the same tags with different bytes
+fn collection(tables: &BTreeMap<[u8; 4], Vec<u8>>, which: usize, members: usize) -> Vec<u8> {
+    let mut out = b"ttcf".to_vec();
+    out.extend_from_slice(&[0, 1, 0, 0]);
+    out.extend_from_slice(&(members as u32).to_be_bytes());
+    let offs_pos = out.len();
+    out.resize(out.len() + 4 * members, 0);
+    for m in 0..members {
+        let here = out.len() as u32;
+        out[offs_pos + 4 * m..offs_pos + 4 * m + 4].copy_from_slice(&here.to_be_bytes());
+        let n = tables.len();
+        out.extend_from_slice(&[0, 1, 0, 0]);
+        let es = if n == 0 { 0 } else { 15 - (n as u16).leading_zeros() as u16 };
+        let sr = if n == 0 { 0 } else { (1u16 << es) * 16 };
+        for v in [n as u16, sr, es, (n as u16 * 16).wrapping_sub(sr)] {
+            out.extend_from_slice(&v.to_be_bytes());
+        }
+        let dir_pos = out.len();
+        out.resize(out.len() + 16 * n, 0);
+        for (i, (t, d)) in tables.iter().enumerate() {
+            let data: Vec<u8> = if m == which { d.clone() } else { d.iter().map(|b| b ^ 0x5A).chain([m as u8]).collect() };
+            let off = out.len() as u32;
+            let rec = dir_pos + 16 * i;
+            out[rec..rec + 4].copy_from_slice(t);
+            out[rec + 4..rec + 8].copy_from_slice(&checksum(&data).to_be_bytes());
+            out[rec + 8..rec + 12].copy_from_slice(&off.to_be_bytes());
+            out[rec + 12..rec + 16].copy_from_slice(&(data.len() as u32).to_be_bytes());
+            out.extend_from_slice(&data);
+            while out.len() % 4 != 0 {
+                out.push(0);
+            }
+        }
+    }
+    out
 }
 
 fn fail(sig: &str, msg: String) -> Fail {
@@ -121,8 +177,13 @@ fn test(c: &Case, stats: &Stats) -> CaseResult {
         dfb.add_raw(Tag::from_be_bytes(*t), d.clone());
         dmodel.insert(*t, d.clone());
     }
-    let donor_bytes = dfb.build();
-    let donor = FontRef::new(&donor_bytes).map_err(|e| fail("open", format!("donor does not open: {e}")))?;
+    let donor_bytes = if c.ttc_member > 0 { collection(&dmodel, c.ttc_member as usize - 1, c.ttc_members.max(c.ttc_member) as usize) } else { dfb.build() };
+    let donor = if c.ttc_member > 0 {
+        stats.class("donor_is_collection_member");
+        FontRef::from_index(&donor_bytes, c.ttc_member as u32 - 1).map_err(|e| fail("open", format!("collection member does not open: {e}")))?
+    } else {
+        FontRef::new(&donor_bytes).map_err(|e| fail("open", format!("donor does not open: {e}")))?
+    };
     let mut fb3 = FontBuilder::new();
     if c.copy_first {
         fb3.copy_missing_tables(donor.clone());
@@ -136,7 +197,8 @@ fn test(c: &Case, stats: &Stats) -> CaseResult {
     let mut m3 = BTreeMap::new();
     for (t, d) in &dmodel {
         // what the donor *file* holds (its head adjustment was rewritten by build)
-        let stored = donor.table_data(Tag::from_be_bytes(*t)).map(|x| x.as_bytes().to_vec()).unwrap_or_else(|| d.clone());
+        // (a collection member is assembled by the harness: it holds exactly the supplied bytes)
+        let stored = if c.ttc_member > 0 { d.clone() } else { donor.table_data(Tag::from_be_bytes(*t)).map(|x| x.as_bytes().to_vec()).unwrap_or_else(|| d.clone()) };
         m3.insert(*t, stored);
     }
     for (t, d) in &model {
@@ -177,7 +239,7 @@ fn test(c: &Case, stats: &Stats) -> CaseResult {
 
 fn main() {
     let ctx = Ctx::from_args("C06");
-    ctx.set_rule("proptest-generated add_raw sequences (0..40 calls; tags head/CFF/DSIG/glyf/loca/printable/arbitrary; lengths 0..70000 biased to 0..20 and every residue mod 4; bytes biased to 00/FF) + a donor font for copy_missing_tables. Non-trivial: >= 2 tables with a length not a multiple of 4, or a head table >= 12 bytes; distinct by hash of the add sequence.");
+    ctx.set_rule("proptest-generated add_raw sequences (0..40 calls; tags head/near misses of head such as bhed/CFF/DSIG/glyf/loca/printable/arbitrary; lengths 0..70000 biased to 0..20 and every residue mod 4; bytes biased to 00/FF) + a donor font for copy_missing_tables (a stand-alone file or a member of a harness-assembled font collection). Non-trivial: >= 2 tables with a length not a multiple of 4, or a head table >= 12 bytes; distinct by hash of the add sequence.");
     ctx.assume("the oracle is an independent ~100-line sfnt reader/checksummer in the harness (vcore::sfnt), plus FontRef::new/table_data");
     ctx.prop_stage("build", Isolation::Threads, ctx.n(20_000, 300_000), strategy, test);
     ctx.finish();
